@@ -187,7 +187,7 @@ theorem read_scalar (o : Opts) (s : Scalar) (rs : RScalar) (path r : List Char) 
         cases w with
         | nil => exact absurd rfl hwv.1
         | cons c cs =>
-          obtain ⟨hd, hm'⟩ := hnl c rfl
+          obtain ⟨hd, hm'⟩ : isDigitChar c = false ∧ c ≠ '-' := hnl
           simp only [readScalar, hread, hd, hm', if_false, Bool.false_eq_true, hlk]
           simp [hlo, hhi, Scalar.written]
     | int _ _ _ => cases n <;> exact absurd hm (by simp [ScalarMatches])
